@@ -158,6 +158,10 @@ func Execute(t *testing.T, sc *Scenario, seed uint64, plan, sched *sim.Tape, wan
 			res.SchedTape = sched.Out
 		}
 	})
+	// two collections: the second one also empties the victim caches of any
+	// sync.Pool in the code under test, so that no pooled object (e.g. a
+	// channel created inside this run's bubble) survives into the next run
+	runtime.GC()
 	runtime.GC()
 	res.WallMicros = time.Since(t0).Microseconds()
 	return res
